@@ -14,7 +14,7 @@ def slim_run(r, around=None):
     return d
 
 
-def run_conn(res, whiches, prop_filter=None, timeout=900, with_responder=False, with_streams=False, with_reverse=False):
+def run_conn(res, whiches, prop_filter=None, timeout=900, with_responder=False, with_streams=False, with_reverse=False, with_keepalive=False):
     okb, blog, exe = vlib.build_harness()
     if not okb:
         res.failed_obligations.append(("harness does not build against /repo", blog))
@@ -41,6 +41,13 @@ def run_conn(res, whiches, prop_filter=None, timeout=900, with_responder=False, 
         res.mismatches.append({"family": "conn/" + r["scenario"], "params": r["params"], "diag": diag_txt.get(d, d), "at_event": i,
                                "events_around": evs[max(0, i - 8):i + 3],
                                "note": "the recorded trace is not a behaviour of Conn.step (variant repaired_c)"})
+    if with_keepalive:
+        kbad, kitems = conncommon.validate_keepalive(res, ws_runs, res.prop)
+        ktxt = {1: "the deadline model (fires T after the last re-arming, never before) disagrees with the observed reader error / its absence",
+                2: "a deadline reset without evidence that the peer is alive"}
+        for r, d, i in kbad:
+            res.mismatches.append({"family": "conn/keepalive", "params": r["params"], "diag": ktxt.get(d, d), "at_event": i})
+        res.add_cov(keepalive_timed_traces_validated=len(kitems) - len(kbad))
     if with_reverse:
         # the server's wsConn is the requester of reverse calls: same LTS, roles swapped
         rv = []
